@@ -18,18 +18,22 @@ ASSUMPTIONS = ["CPython ast parser", "canboat.json is the oracle", "sym.py parti
                "Python int/round semantics: int() truncates, round() rounds to nearest"]
 
 def run(chk, program, tier):
+    chk.rule('ENC-STATE', 'encoder keeps no state between messages besides the fast-packet sequence counter')
     chk.rule('GEN-ENC', 'generated encoder table == database definition')
     chk.rule('ENC-MASK', 'mask = 2^BitLength-1 and shift = BitOffset per OR-ed piece')
     chk.rule('SENT-AGREE', 'decoder and encoders agree on the not-available code')
     chk.rule('SIGN-AGREE', 'encoder wrap is the inverse of decoder sign extension')
     chk.rule('ROUND', 'scaled value -> tick count passes through round')
     chk.rule('ABSENT-ENC', 'absent value encodes to a pattern, not an exception')
+    chk.rule('ENC-RANGE', 'encode_number accepts exactly the raw values the decoder can produce (top code reserved)')
+    chk.rule('ENC-NA', 'None encodes to the not-available code')
     chk.rule('LOOKUP-INV', 'lookup_dict_encode_X inverts master_dict[X]')
     sites = E.gen_enc(chk, program)
     E.round_rule(chk, program, sites)
     E.absent_enc(chk, program, sites)
     H.sent_sign_agree(chk, program, sites)
-    H.enc_range_round_only(chk, program)
+    H.enc_range(chk, program)
     E.lookup_inv(chk, program)
+    E.enc_state(chk, program)
     chk.floor('encodable_definitions', chk.units.get('encodable_definitions', 0), 255)
     chk.floor('encoder_rows', chk.units.get('encoder_rows', 0), 1700)
